@@ -1,4 +1,4 @@
-"""Rewrite rules R16 / R17 (opt-in per fn: `:: matchrw=orsplit,guardelse`), used by unit `checkout`.
+"""Rewrite rules R16 / R17 / R18 (opt-in per fn: `:: matchrw=orsplit,guardelse,ready`), used by unit `checkout`.
 
 Verus rejects two `match` shapes that occur in src/client/pool/checkout.rs once the enum pin-projections are
 erased (R6e) and the arms therefore bind by `&mut`:
@@ -148,8 +148,30 @@ def _render(pat, guard, body):
     return "%s%s => %s," % (pat, (" if " + guard) if guard else "", body)
 
 
+def expand_ready(rw):
+    """R18 `ready`: `ready!(E)` is replaced by its definition in core::task
+           match E { Poll::Ready(t) => t, Poll::Pending => { return Poll::Pending; } }
+    (the argument of a foreign macro is opaque to `verus!`: neither proof hints nor closure contracts can be
+    placed inside it; the expansion is the macro's documented body, with a fresh variable name)."""
+    n = 0
+    while True:
+        m = mask(rw.t)
+        mm = re.search(r"(?<![A-Za-z0-9_])(?:std::task::|core::task::)?ready!\s*\(", m)
+        if not mm:
+            break
+        pc = match_close(m, mm.end() - 1)
+        arg = rw.t[mm.end():pc]
+        rep = ("(match %s { std::task::Poll::Ready(ready_value__) => ready_value__, "
+               "std::task::Poll::Pending => { return std::task::Poll::Pending; } })") % arg
+        rw.t = rw.t[:mm.start()] + rep + rw.t[pc + 1:]
+        n += 1
+    rw.note("R18", n)
+
+
 def apply(rw, which, unsupported):
     which = set(x.strip() for x in which.split(",") if x.strip())
+    if "ready" in which:
+        expand_ready(rw)
     n16 = n17 = 0
     progress = True
     while progress:
